@@ -78,6 +78,40 @@ def conformance_post(ctx, cov):
             print("  " + m)
 
 
+def conformance_post_both(ctx, cov):
+    """C07 runs on two broker models: fakenats (bound by lib/brokerconf.sh) and fakestomp (bound by
+    lib/stompconf.sh against the go-stomp client and go-stomp's own server package)."""
+    conformance_post(ctx, cov)
+    s = ctx.mkscratch()
+    rep = os.path.join(s, "stompconf.json")
+    try:
+        p = subprocess.run([os.path.join(VERIF, "lib", "stompconf.sh"), ctx.tier, rep], env=GOENV, capture_output=True, text=True, timeout=3000)
+        out = (p.stdout or "") + (p.stderr or "")
+        r = json.load(open(rep)) if os.path.exists(rep) else None
+    except Exception as e:
+        cov["model_conformance_stomp"] = {"status": "not run: %s" % e}
+        return
+    if r is None:
+        cov["model_conformance_stomp"] = {"status": "not run", "output": out[-600:]}
+        return
+    keep = ("status", "scripts", "script_depth", "model_executions", "model_states", "model_transitions", "model_outcomes",
+            "real_runs", "real_distinct_observations", "real_runs_inconclusive", "server", "wall_s")
+    mc = {k: r.get(k) for k in keep}
+    mc["model_capped_scripts"] = len(r.get("model_capped_scripts") or [])
+    mc["unexplained_once"] = (r.get("unexplained_once") or [])[:5]
+    mc["mismatches"] = (r.get("mismatches") or [])[:10]
+    mc["how"] = ("every script over {subscribe to a topic / another topic / a queue, with client-individual or auto acks; send to either topic or the queue; receive from a subscription's channel} of length <= script_depth that starts with a subscription, "
+                 "plus longer ones (bursts, two subscribers, queue consumers, messages sent before anybody subscribed, subscription ids in use), is explored on fakestomp under vsched (all Choose answers) and run several times against the real client and server; "
+                 "each real observation (per-operation results, then what every subscription's channel still yields) must be one of the model's outcomes; an unexplained observation is looked for again with ten times longer receive waits before it counts")
+    mc["not_compared"] = ("Unsubscribe and Ack: go-stomp's server package never answers UNSUBSCRIBE with a RECEIPT (the client's Unsubscribe waits forever) and rejects the client's STOMP 1.2 ACK frame, "
+                          "and no other STOMP server exists in the sandbox; those two operations of the model stay bound to go-stomp v2.1.4 by reading its sources")
+    cov["model_conformance_stomp"] = mc
+    if mc["mismatches"]:
+        print("CONFORMANCE-MISMATCH: the STOMP broker model lacks behaviours of the real client/server:")
+        for m in mc["mismatches"]:
+            print("  " + m)
+
+
 def explore(ctx, spec):
     """Runs the harness scenarios, records violations in ctx and returns the coverage dict."""
     exe = build(ctx)
